@@ -38,7 +38,35 @@ func (r *Run) selectedUnderTests(label string, fn *ssa.Function, tm *Termer, act
 	}
 	_ = want
 	if flag == nil {
-		r.Bad(label+".guarded-by-flag", p.Pos(action.Pos()), "the action is not guarded by the flag that records a successful selection")
+		// Equivalent protocol without a separate flag: the variable itself records the outcome (nil = nothing
+		// selected, e.g. a lookup helper with early returns). The object acted on is then whatever candidate
+		// flowed into the variable, so N1 is demanded on EVERY edge on which a candidate enters the variable's
+		// phi web, for that very candidate; N2 is implied (a later draw can replace the selected object only
+		// through another such edge, which is tested as well) and N3 is the nil test.
+		sites, _ := ptrSites(chosen)
+		if _, isPhi := stripCT(chosen).(*ssa.Phi); !isPhi || len(sites) == 0 || !nonNilGuarded(action.Block(), chosen) {
+			r.Bad(label+".guarded-by-flag", p.Pos(action.Pos()), "the action is not guarded by the flag that records a successful selection")
+			return nil
+		}
+		r.OK(label+".guarded-by-flag", p.Pos(action.Pos()), "the action runs only when the selection left a candidate (nil records a failed selection)")
+		for _, s := range sites {
+			conds := effCondsAt(s.From, s.To, s.Val)
+			var missing []string
+			for _, t := range tests {
+				hit := false
+				for _, g := range conds {
+					if t.ok(tm, g, s.Val) {
+						hit = true
+					}
+				}
+				if !hit {
+					missing = append(missing, t.name)
+				}
+			}
+			r.Check(len(missing) == 0, label+".tests", p.Pos(firstBlockPos(s.From)), "a candidate becomes the selection only after it passed every test",
+				"a candidate becomes the selection on a path where it was not tested for: "+strings.Join(missing, ", "), describeBlock(p, s.From, nil))
+			r.OK(label+".final", p.Pos(firstBlockPos(s.From)), "the selection is carried by the variable itself: it can be replaced only by another tested candidate")
+		}
 		return nil
 	}
 	r.OK(label+".guarded-by-flag", p.Pos(action.Pos()), "the action runs only when the selection flag is true")
@@ -380,7 +408,9 @@ func C05(p *Prog, r *Run) {
 			}
 			gene := st.Addr.(*ssa.FieldAddr).X
 			r.Check(isElemOfRecvField(tm.Of(gene), "Genes"), "toggle.target", p.Pos(st.Pos()), "the toggled gene is an element of the gene list", "the toggled gene is "+tm.Of(gene).String())
-			conds := Guards(st.Block())
+			// outcomes known at the store, also those established by a boolean search result that guards it
+			// (an extracted `has other enabled gene` helper): see effGuards for why they speak about this gene
+			conds := effGuards(st.Block(), gene)
 			var other ssa.Value
 			sameNode, otherEnabled, differs, selfEnabled := false, false, false, false
 			for _, g := range conds {
@@ -434,28 +464,46 @@ func C05(p *Prog, r *Run) {
 			n++
 			gene := st.Addr.(*ssa.FieldAddr).X
 			okV := IsConstBool(st.Val, true)
-			okG := false
-			for _, g := range Guards(st.Block()) {
-				if boolFieldCond(tm, g, gene, false, "IsEnabled") {
-					okG = true
-				}
-			}
-			l := scanLoopOf(loops, st.Block())
-			okLoop, okOnce := false, false
-			if l != nil {
-				// ascending scan from index 0 over the whole list
-				if iff, ok := l.Header.Instrs[len(l.Header.Instrs)-1].(*ssa.If); ok {
-					ct := tm.Of(iff.Cond)
-					okLoop = ct.Op == "bin" && ct.Name == "<" && ct.Args[1].String() == "len(recv.Genes)" && strings.Contains(ct.Args[0].String(), "-1") && isElemOfRecvField(tm.Of(gene), "Genes")
-					if et := tm.Of(gene); okLoop && len(et.Args) > 1 {
-						okLoop = et.Args[1].String() == ct.Args[0].String()
+			// The gene may be named directly (store inside the scan) or be the result of a lookup that yields
+			// the found element or nil (store after the scan): one case per concrete candidate, each with the
+			// branch outcomes established for it.
+			cases := selCases(st.Block(), gene)
+			okG, okLoop, okOnce := len(cases) > 0, len(cases) > 0, len(cases) > 0
+			for _, c := range cases {
+				g1 := false
+				for _, g := range c.Conds {
+					if boolFieldCond(tm, g, c.Cand, false, "IsEnabled") || boolFieldCond(tm, g, gene, false, "IsEnabled") {
+						g1 = true
 					}
 				}
-				path := FindPath(p, PathQuery{Fn: fn, StartAfter: st, FlagBlind: false, Explored: &r.PathsExplored,
-					Target: func(in ssa.Instruction) bool {
+				okG = okG && g1
+				at := st.Block()
+				if c.Site != nil {
+					at = c.Site.From
+				}
+				l := scanLoopOf(loops, at)
+				l1, o1 := false, false
+				if l != nil {
+					// ascending scan from index 0 over the whole list
+					if iff, ok := l.Header.Instrs[len(l.Header.Instrs)-1].(*ssa.If); ok {
+						ct := tm.Of(iff.Cond)
+						l1 = ct.Op == "bin" && ct.Name == "<" && ct.Args[1].String() == "len(recv.Genes)" && strings.Contains(ct.Args[0].String(), "-1") && isElemOfRecvField(tm.Of(c.Cand), "Genes")
+						if et := tm.Of(c.Cand); l1 && len(et.Args) > 1 {
+							l1 = et.Args[1].String() == ct.Args[0].String()
+						}
+					}
+					backToScan := func(in ssa.Instruction) bool {
 						return in.Block() == l.Header && instrIndex(in) == len(l.Header.Instrs)-1
-					}})
-				okOnce = path == nil
+					}
+					path := FindPath(p, PathQuery{Fn: fn, StartAfter: st, FlagBlind: false, Explored: &r.PathsExplored, Target: backToScan})
+					if path == nil && c.Site != nil {
+						// the scan must also stop where the candidate is taken, not only after the store
+						path = FindPath(p, PathQuery{Fn: fn, StartEdge: [2]*ssa.BasicBlock{c.Site.From, c.Site.To}, Explored: &r.PathsExplored, Target: backToScan})
+					}
+					o1 = path == nil
+				}
+				okLoop = okLoop && l1
+				okOnce = okOnce && o1
 			}
 			r.Check(okV && okG && okLoop && okOnce, "re-enable.store", p.Pos(st.Pos()), "enables the first disabled gene of an ascending scan and stops",
 				fmt.Sprintf("re-enable: stores true=%v, guarded by !IsEnabled of the same gene=%v, ascending scan over all genes=%v, scan stops after the first hit=%v", okV, okG, okLoop, okOnce))
@@ -753,6 +801,7 @@ func (r *Run) checkConnectSensors(sums *Summaries) {
 		fromList     string // appended elements are elements of this list
 		underNotFlag ssa.Value
 		extra        []string
+		elem         ssa.Value // the appended element
 	}
 	lists := map[string]*listInfo{} // keyed by the term string of the list's phi web root
 	appendSites := 0
@@ -771,7 +820,7 @@ func (r *Run) checkConnectSensors(sums *Summaries) {
 		appendSites++
 		_ = base
 		key := fmt.Sprint(c.Pos())
-		li := &listInfo{}
+		li := &listInfo{elem: elems[0]}
 		et := tm.Of(elems[0])
 		if et.Op == "elem" {
 			li.fromList = et.Args[0].String()
@@ -832,17 +881,44 @@ func (r *Run) checkConnectSensors(sums *Summaries) {
 	if dList != nil && dList.underNotFlag != nil {
 		for _, s := range flagSites(dList.underNotFlag, true) {
 			okc := false
-			for _, g := range condsAt(s.From, s.To) {
+			var extra []string
+			conds := condsAt(s.From, s.To)
+			// inside the scan over the genes the hit may depend on nothing but `gene leaves the examined sensor`:
+			// any further condition (e.g. only enabled genes) lets a sensor that has a gene pass as unconnected
+			scan := scanLoopOf(loops, s.From)
+			if scan != nil && !loopRangesOver(tm, scan, "recv.Genes") {
+				scan = nil
+			}
+			for _, g := range conds {
+				if scan != nil && (!scan.Blocks[g.At] || g.At == scan.Header) {
+					continue
+				}
+				hit := false
 				if a, b, ok := eqCond(tm, g); ok {
 					for _, pr := range [][2]*Term{{a, b}, {b, a}} {
 						base, path := pr[0].FieldPath()
-						if base != nil && isElemOfRecvField(base, "Genes") && (strings.Join(path, ".") == "Link.InNode.Id" || strings.Join(path, ".") == "Link.InNode") {
-							okc = true
+						if base == nil || !isElemOfRecvField(base, "Genes") {
+							continue
+						}
+						switch strings.Join(path, ".") {
+						case "Link.InNode.Id":
+							hit = hit || fieldChainOn(pr[1], dList.elem, "Id")
+						case "Link.InNode":
+							hit = hit || pr[1].V == dList.elem
 						}
 					}
 				}
+				if hit {
+					okc = true
+				} else if scan != nil {
+					extra = append(extra, fmt.Sprintf("%s=%v", tm.Of(g.Cond), g.True))
+				}
 			}
-			r.Check(okc, "connect.connected-test", p.Pos(firstBlockPos(s.From)), "a sensor counts as connected only when some gene leaves it", "a sensor is marked connected without a gene leaving it")
+			bad := "a sensor is marked connected without a gene leaving it"
+			if okc && len(extra) > 0 {
+				bad = "a gene leaving the sensor marks it connected only under a further condition (" + strings.Join(extra, "; ") + "): a sensor that has genes can be taken for an unconnected one and receive additional genes"
+			}
+			r.Check(okc && len(extra) == 0, "connect.connected-test", p.Pos(firstBlockPos(s.From)), "a sensor counts as connected exactly when some gene leaves it", bad)
 		}
 	}
 	// a target is skipped only when the link exists: the creation is guarded by a flag that is set only under (gene.in == sensor && gene.out == target)
@@ -911,6 +987,13 @@ func (r *Run) checkConnectSensors(sums *Summaries) {
 	}
 	r.Check(okSkip, "connect.skip-only-existing", p.Pos(gcs[0].call.Pos()), "a target is skipped only when a gene sensor->target exists",
 		"a target can be skipped for a reason other than `the link sensor->target exists`, or no such test guards the creation: "+strings.Join(extra, "; "))
+	// every target that is not skipped gets its gene: an iteration of the loop that holds the insertion either passes
+	// the skip test with `link exists`, inserts a gene, or leaves the function. (The creation is spread over the reuse
+	// and the novel branch; state carried from one target to the next - a flag that is not reset - opens a path
+	// on which neither branch builds a gene.)
+	if skip != nil {
+		r.checkEveryTarget(sums, fn, loops, gi[0], skip)
+	}
 	// write set
 	ws, _ := p.writeSet(fn, 0)
 	allowed := map[string]bool{"Genome.Genes": true, "elem:Genes": true}
